@@ -12,7 +12,7 @@ import json, os, itertools
 import vp, corpus
 
 NAMES = ["r", "a", "b", "c", "d"]
-LEAF = {"none": None, "scalar": 7, "str": "s", "arr": [1], "undef": {"$undef": 1}}
+LEAF = {"none": None, "scalar": 7, "str": "s<", "arr": ["<"], "undef": {"$undef": 1}}
 
 
 def concretise(vs):
@@ -132,10 +132,15 @@ def run(tier):
         ctx = concretise(vs)
         P = path_of(len(vs))
         for opt in (True, False):
-            jobs.append({"cfg": {"optimize": opt}, "ctx": ctx, "steps": [
+            jobs.append({"cfg": {"optimize": opt, "autoescape": [".html"]}, "ctx": ctx, "steps": [
                 {"op": "render_str", "src": "{{ %s }}" % P, "auto": False},
                 {"op": "render_str", "src": KIND_TPL.replace("P", P), "auto": False},
-                {"op": "render_str", "src": "[{{ %s }}]" % P, "auto": True}]})
+                {"op": "render_str", "src": "[{{ %s }}]" % P, "auto": True},
+                # the same write inside a component rendered through the API with the autoescape flag AGAINST the suffix rule
+                # of its template, both ways (the fused write has to take the same escape decision as the plain one)
+                {"op": "add", "tpls": [["k.txt", "{%% component K(r) %%}[{{ %s }}]{%% endcomponent K %%}" % P], ["k.html", "{%% component H(r) %%}[{{ %s }}]{%% endcomponent H %%}" % P]]},
+                {"op": "render_component", "name": "K", "auto": True, "expect_ae": True},
+                {"op": "render_component", "name": "H", "auto": False, "expect_ae": False}]})
             meta.append((v, opt))
     res = vp.traced(jobs, C, "c09-local")
     outs = {}
